@@ -108,7 +108,7 @@ def role_swapped(r, tokens):
 def plan(tier, seed):
     n_assign = 72 if tier == "quick" else 400
     shards = 12 if tier == "quick" else 40
-    return [{"kind": "assign", "n_assign": n_assign, "part": i, "parts": shards, "per": 40 if tier == "quick" else 80} for i in range(shards)]
+    return [{"kind": "assign", "n_assign": n_assign, "part": i, "parts": shards, "per": 40 if tier == "quick" else 80} for i in range(shards)] + [{"kind": "threads", "rounds": 12 if tier == "quick" else 120}]
 
 
 _SHARED = {}
@@ -275,6 +275,9 @@ def check_case(ctx, tokens, comp, doc, texts=None, style=None):
 def run(spec, ctx):
     import random
 
+    if spec.get("kind") == "threads":
+        run_threads(ctx, spec["rounds"])
+        return
     r = ctx.rng
     allr = random.Random(ctx.seed * 7919 + 17)
     assigns = assignments(allr, spec["n_assign"])
@@ -302,6 +305,75 @@ def run(spec, ctx):
                 check_case(ctx, tokens, [q], doc)
 
 
+def run_threads(ctx, rounds):
+    """Environments with one and the same brand-new assignment of spellings built by several threads at the same moment
+    (a renaming nobody in this process has used before: a fresh filter-context spelling every round, union and
+    intersection trading places from round to round), each thread then evaluating queries written in those spellings:
+    every one of them must read its queries like the default environment reads the default spelling."""
+    import random
+    import threading
+
+    import jsonpath
+
+    from rt import threads
+
+    r = ctx.rng
+    nm = lambda *ns: ["q", "$", [["child", [["name", n]]] for n in ns]]  # noqa: E731
+    for rnd in range(rounds):
+        uniq = "".join(r.choice(ALPHABET) for _ in range(3)) + "%" * (rnd % 3)
+        tokens = dict(DEFAULT_TOKENS)
+        tokens.update({"root": "$$", "fake": "$", "self": "@@", "key": "@", "keys": "%~", "ctx": uniq})
+        tokens["union"], tokens["inter"] = ("&", "|") if rnd % 2 else ("|", "&")
+        if len(set(tokens.values())) != 8 or any(a != b and (a.startswith(b) and a[len(b):] and False) for a in tokens.values() for b in tokens.values()):
+            continue
+        comps = []
+        docs = []
+        for _ in range(3):
+            comp, fg = gen_compound(r)
+            comps.append(comp)
+            docs.append(gen.ext_doc(r, ["a", "b", "c", "k", "v"], extra=fg.witnesses))
+        comps.append([nm("a"), ["&", nm("a")], ["|", nm("b")]])
+        docs.append({"a": [1, 2], "b": {"a": 3}})
+        seed = r.random()
+        texts_def = [Renderer(random.Random(seed), blanks=0.1).compound(c) for c in comps]
+        texts_cus = [Renderer(random.Random(seed), blanks=0.1, tokens=tokens).compound(c) for c in comps]
+        base = [results(jsonpath.DEFAULT_ENV, t, d) for t, d in zip(texts_def, docs)]
+        if any(b[0] != "ok" for b in base):
+            continue
+        errors = []
+        barrier = threading.Barrier(4)
+
+        def worker(wid, rng):
+            try:
+                try:
+                    barrier.wait(10)
+                except threading.BrokenBarrierError:
+                    pass
+                env = make_env(tokens, rng.choice(["subclass", "instance", "renamed-on-the-instance"]))
+                for t, d, b in zip(texts_cus, docs, base):
+                    got = results(env, t, d)
+                    if norm_parts(got, tokens["keys"]) != b:
+                        errors.append({"tokens": tokens, "custom_text": t, "default": repr(b)[:200], "custom": repr(got)[:200]})
+                        return
+                    c = impl.call(env.compile, t)
+                    s_ = impl.call(str, c.value) if c.ok else c
+                    c2 = impl.call(env.compile, s_.value) if s_.ok else s_
+                    if not c2.ok or results(env, s_.value, d) != got:
+                        errors.append({"tokens": tokens, "custom_text": t, "string_form": s_.value if s_.ok else s_.desc(), "recompiled": c2.desc() if not c2.ok else "evaluates differently"})
+                        return
+            except Exception as e:  # noqa: BLE001
+                errors.append({"thread": wid, "raised": "%s: %s" % (type(e).__name__, e)})
+        st = threads.stress(worker, nthreads=4, files=("lex.py", "env.py", "parse.py"), seed=ctx.seed * 31 + rnd, prob=0.02)
+        ctx.evaluation(4 * len(comps))
+        ctx.case(h("threads", canon(tokens), st["signature"]), True)
+        ctx.count("environments_built_by_threads_at_the_same_moment", 4)
+        if st["timed_out"]:
+            ctx.notes.append("a thread round timed out (inconclusive)")
+        if errors:
+            ctx.violation("environments-built-at-the-same-moment-read-their-own-spellings-differently", {"kind": "threads"}, errors[0])
+            return
+
+
 def finalize(m, tier):
     inc = []
     if m["counters"].get("assignments", 0) < 20:
@@ -312,4 +384,7 @@ def finalize(m, tier):
 
 
 def replay(case, ctx):
+    if case.get("kind") == "threads":
+        run_threads(ctx, 60)
+        return
     check_case(ctx, case["tokens"], case["comp"], case["doc"], texts=(case["t_def"], case["t_cus"]), style=case.get("style"))
